@@ -18,7 +18,7 @@ Requirements for the change:
 1. It edits non-test Go source under {wt}/src so that the property above no longer holds, while the tree still compiles (go build ./... and go vet of the touched packages) and the EXISTING tests of the touched packages and their direct dependants still pass unedited (run them; for src/visor add `-skip TestErrMissingSignatureRecreateDB`, that test hangs on the baseline tree for unrelated reasons; wallet.TestServiceNewAddresses/writable=false and file.TestIsWritable fail on the baseline tree because tests run as root — ignore those two).
 2. It must look like a plausible maintenance mistake (refactoring slip, wrong comparison, dropped check, reordered statements, missing lock, early return…), small (a few lines), not a sabotage marker.
 3. It must need something specific to manifest — a particular interleaving, a crash or fault at a particular point, a multi-step sequence of operations, an unusual/boundary input, or two cooperating sites that each look fine alone — not something that ordinary use would expose at once.
-4. Provide a demonstration: a Go test file (package-internal or external) or small program placed under {wt} (e.g. {wt}/src/<pkg>/seeded_demo_test.go) that FAILS with your change and PASSES without it (verify both: `git stash` / `git stash pop` or apply/revert the diff). The demonstration is not part of the change.
+4. Provide a demonstration: a Go test file (package-internal or external) or small program placed under {wt} (e.g. {wt}/src/<pkg>/seeded_demo_test.go) that FAILS with your change and PASSES without it (verify both by saving your diff to a file and using `git apply -R <file>` / `git apply <file>`; NEVER use `git stash` — the stash is shared between all worktrees of the repository and other people are working in other worktrees). The demonstration is not part of the change.
 
 Deliverables, written to the directory /tmp/seed-out/{pid}-{n}/ (create it):
 - patch.diff : `git -C {wt} diff -- src ':!*seeded_demo*'` containing ONLY the breaking change (no demo, no test edits);
